@@ -60,6 +60,10 @@ pub fn unhex(s: &str) -> Vec<u8> {
     (0..s.len() / 2).map(|i| u8::from_str_radix(&s[2 * i..2 * i + 2], 16).unwrap()).collect()
 }
 
+/// seconds one in-flight case may take before the watchdog ends the process
+pub const WATCHDOG_SECS: u64 = 60;
+static WATCH: std::sync::Mutex<Option<std::time::Instant>> = std::sync::Mutex::new(None);
+
 pub struct Out {
     pub dir: String,
     files: BTreeMap<String, std::io::BufWriter<std::fs::File>>,
@@ -85,6 +89,29 @@ impl Out {
     /// (abort, allocation failure, stack overflow) the check reports this case as the failing input.
     pub fn inflight(&self, case_line: &str) {
         let _ = std::fs::write(format!("{}/inflight.txt", self.dir), case_line);
+        // arm / re-arm the watchdog: a library call that never returns cannot be interrupted from inside, so a thread
+        // ends the process (exit 97) when one case has been in flight for longer than the limit; the check then replays
+        // the recorded case alone and reports it as the failing input (a hang)
+        let mut g = WATCH.lock().unwrap_or_else(|e| e.into_inner());
+        let first = g.is_none();
+        *g = Some(std::time::Instant::now());
+        drop(g);
+        if first {
+            std::thread::spawn(|| loop {
+                std::thread::sleep(std::time::Duration::from_millis(500));
+                let t = *WATCH.lock().unwrap_or_else(|e| e.into_inner());
+                if let Some(t0) = t {
+                    if t0.elapsed() > std::time::Duration::from_secs(WATCHDOG_SECS) {
+                        eprintln!("watchdog: the case in flight did not return within {} s (hang)", WATCHDOG_SECS);
+                        std::process::exit(97);
+                    }
+                }
+            });
+        }
+    }
+    /// the case in flight is over (no case is being timed until the next `inflight`)
+    pub fn landed(&self) {
+        *WATCH.lock().unwrap_or_else(|e| e.into_inner()) = None;
     }
     pub fn count(&mut self, key: &str) {
         *self.stats.entry(key.to_string()).or_insert(0) += 1;
@@ -119,6 +146,7 @@ impl Out {
         }
         s.push_str("\n ]\n}\n");
         std::fs::write(format!("{}/stats.json", self.dir), s).unwrap();
+        *WATCH.lock().unwrap_or_else(|e| e.into_inner()) = None;
         let _ = std::fs::remove_file(format!("{}/inflight.txt", self.dir));
     }
 }
